@@ -86,13 +86,13 @@ SPELLINGS = ["--proxy V", "--proxy=V", "-proxy V", "-proxy=V", "--define proxy=V
              "--define  proxy  =  V", "-x V", "-x=V", "--x V"]
 
 
-def gen_argv(rng):
+def gen_argv(rng, sp=None, where=None):
     user = "usr%dq%s" % (rng.randint(1, 99), "".join(rng.choice("abcdefXYZ") for _ in range(6)))
     pw = "".join(rng.choice("abcdefXYZ0123456789") for _ in range(10))
     # with a scheme, and libcurl style without one (collector.parseProxy then assumes http://)
     scheme = rng.choice(["http://", "http://", "https://", "socks5://", "", ""])
     secret = "%s%s:%s@proxy%d.example:%d" % (scheme, user, pw, rng.randint(1, 9), rng.choice([8080, 3128, 1080]))
-    sp = rng.choice(SPELLINGS)
+    sp = sp or rng.choice(SPELLINGS)
     legacy = sp.split()[0] in ("-x", "-x=V", "--x") or sp.startswith("-x")
     if legacy:
         base = ["daemon", "-f", "-l", "@LOG@", "-d", "debug", "-a", "@AUDIT@", "-p", "@PID@", "-P", "/proc/verif-nonexistent/sock"]
@@ -106,6 +106,10 @@ def gen_argv(rng):
     pos = rng.randint(2, len(base)) if not legacy else len(base)
     # keep option/value pairs of the base together: insert only at even offsets after "-f"
     pos = 2 + 2 * rng.randint(0, (len(base) - 2) // 2)
+    if where == "first":
+        pos = 2
+    elif where == "last":          # the very last argument(s) of the command line
+        pos = len(base)
     args = base[:pos] + parts + base[pos:]
     return "argv echo %s secret=%s,%s" % (" ".join(hx(a) for a in args), hx(pw), hx(user))
 
@@ -134,7 +138,9 @@ def plan(ctx):
                                                          rng.choice(FAULTS), rng.choice(CMDS)))
     for p, s in PROXIES:
         ops.append("redact proxyerr proxy=%s secret=%s" % (hx(p), hx(s)))
-    argv = [gen_argv(rng) for _ in range(len(SPELLINGS) * (3 if tier == "quick" else 60))]
+    # every spelling at the first position after the program's own flags, at the very end of the command line, and at random ones
+    argv = [gen_argv(rng, sp, where) for sp in SPELLINGS for where in ("first", "last", None)]
+    argv += [gen_argv(rng) for _ in range(0 if tier == "quick" else len(SPELLINGS) * 60)]
     # everything the real Processor logs (debug level) during lifecycle histories - connect verdicts of every kind, restarts,
     # harvest failures - with 40-character license keys: the full key must never be in it
     from checks import gen_proc
